@@ -638,6 +638,9 @@ def run(chk, prog):
     okw = fw is not None and fwh is not None and any(str(t_) == "factor4WattPerHertz" for t_ in fw.free_symbols) and \
         "Hertz" in str(sp.simplify(fw / sp.Symbol("factor4WattPerHertz", real=True))) and "_axis_freq" in str(fw)
     chk.check(okw, "R7", ec8[0].where, "\"Watt\" = \"WattPerHertz\" * Hertz scale of the field's own frequency axis (%s)" % fw, "units:watts-vs-watts-per-hertz")
+    # ---- R8: the stored CSR intensity of bunch n is the sum of the stored spectrum of bunch n (decided under C07 R1; re-evaluated here) -------
+    from .common import reeval
+    reeval(chk, prog, "C07", lambda i: i["rule"] == "R1" and "intensity" in i["what"], "R8", "R8-intensity-is-sum-of-spectrum", 2)
     # ---- RD: dimensional consistency of the quantities this property depends on (sa/dims.py) ----------------------------------------
     from . import dimrules
     nrd = dimrules.run(chk, prog, "RD")
